@@ -61,6 +61,7 @@ CM_DTYPES = ['uint32', 'int32', 'int64']
 
 POS_STYLES = ['centred', 'block', 'frac', 'mirror', 'line', 'big', 'dyadic']
 WMI_KINDS = ['exact64', 'exact64', 'f32', 'rounded', 'f16', 'stale']
+CWD_KINDS = ['asis', 'asis', 'asis', 'decoy', 'decoy', 'decoy', 'dataset', 'parent', 'empty']
 
 
 def _positions(rng, nc, style):
@@ -330,6 +331,13 @@ def _mk(rng, **force):
         sn = [n for n in files if n.startswith('spikes.samples')]
         if sn:
             files[sn[0]]['data'][i], files[sn[0]]['data'][i + 1] = files[sn[0]]['data'][i + 1], files[sn[0]]['data'][i]
+    # stage 6 axes = the ENVIRONMENT of the load (the abstract result must not depend on it): the current working
+    # directory of the process (left as it is / the dataset directory itself / its parent / an empty sibling / a sibling
+    # 'decoy' session directory holding files with the very same names - raw files, params.py, every array - but other
+    # contents), and how the caller spells the paths (absolute, or relative to that working directory)
+    o.setdefault('cwd', rng.choice(CWD_KINDS))
+    o.setdefault('pass', 'rel' if rng.random() < 0.25 else 'abs')
+    o.setdefault('env_seed', rng.randrange(1 << 30))
     ds['opts'] = o
     return ds
 
@@ -353,6 +361,18 @@ BREAK_NEEDS = {'amps_longer': dict(amplitudes=True), 'amps_2d': dict(amplitudes=
 
 def generate(tier, rng):
     cases = []
+    # stage 6 corpus (runs first): the process sits in ANOTHER session's directory that holds same-named files, in the
+    # dataset directory itself, in its parent; paths given relative to the working directory
+    for force in [
+        dict(route='params', raw=True, cwd='decoy', **{'pass': 'abs'}), dict(route='params_alt', raw=True, cwd='decoy'),
+        dict(route='params_dup', raw=True, cwd='decoy'), dict(route='kwargs', raw=True, cwd='decoy', **{'pass': 'rel'}),
+        dict(route='params', raw=True, cwd='decoy', names='alf', **{'pass': 'rel'}),
+        dict(route='params', raw=True, cwd='dataset', **{'pass': 'rel'}), dict(route='kwargs', raw=True, cwd='dataset', **{'pass': 'rel'}),
+        dict(route='params', raw=True, cwd='parent', **{'pass': 'rel'}), dict(route='params_alt', raw=False, cwd='empty', **{'pass': 'rel'}),
+        dict(route='kwargs', raw=False, cwd='decoy', write_clusters=False, curated=False, whitening='tri', write_wmi=False),
+    ]:
+        for _ in range(2):
+            cases.append({'kind': 'load', 'inp': _mk(rng, **force)})
     # stage 5 corpus (runs first): channel positions outside non-negative integer micrometres, and pre-existing inverse
     # whitening files that are not the binary64 inverse phylib itself would write
     for force in [
@@ -435,8 +455,79 @@ def _write_params(ds, route, d):
             f.write('%s = %s\n' % (k, D4.py_literal(v, d)))
 
 
+def _make_decoy(ds, side, seed):
+    """Another session's directory: files with the SAME NAMES as the dataset's (every array, the raw files, params.py) and
+    other contents / lengths; some of them left out.  Nothing in it belongs to the dataset that is loaded."""
+    import numpy as np
+    r = random.Random(seed)
+    D.materialise(ds, side)
+    for name in sorted(os.listdir(side)):
+        p = os.path.join(side, name)
+        if name.endswith('.npy'):
+            if r.random() < 0.3:
+                os.remove(p)
+                continue
+            a = np.load(p)
+            if a.ndim and a.shape[0] > 1 and r.random() < 0.7:
+                a = np.roll(a, 1, axis=0)
+            else:
+                with np.errstate(all='ignore'):
+                    a = (a + np.ones((), a.dtype)).astype(a.dtype)
+            np.save(p, a)
+    raw = ds.get('raw')
+    if raw:
+        for j, n in enumerate(raw['sizes']):
+            n2 = max(1, n + r.choice([0, 0, 3, -1, 7]))
+            arr = D.raw_array(n2, raw['n_channels_dat'], raw['dtype'], 1000 + 17 * j)
+            with open(os.path.join(side, D4.raw_names(ds)[j]), 'wb') as f:
+                f.write(b'\x09' * raw.get('offset', 0))
+                f.write(arr.tobytes())
+    pr = ds['params']
+    with open(os.path.join(side, 'params.py'), 'w') as f:
+        f.write('dat_path = %r\nn_channels_dat = %r\ndtype = %r\noffset = 0\nsample_rate = %r\nhp_filtered = True\n' % (
+            D4.raw_names(ds), (pr.get('n_channels_dat') or 1) + 1, str(pr.get('dtype', 'int16')), 2.0 * float(pr['sample_rate'])))
+
+
+class _Environment(object):
+    """The environment of one load: chdir into the working directory the case names ('asis' = wherever the process is),
+    spell the caller's paths absolutely or relative to it, and restore everything afterwards.  `listing()` = the
+    content of a working directory this class created (it must not change either)."""
+    def __init__(self, ds, d, kw):
+        o = ds.get('opts', {})
+        self.kind, self.rel = o.get('cwd', 'asis'), o.get('pass', 'abs') == 'rel'
+        self.ds, self.d, self.kw, self.seed = ds, d, kw, o.get('env_seed', 0)
+        self.side, self.old = None, None
+
+    def __enter__(self):
+        self.old = os.getcwd()
+        if self.kind in ('decoy', 'empty'):
+            self.side = self.d + '.cwd'
+            os.mkdir(self.side)
+            if self.kind == 'decoy':
+                _make_decoy(self.ds, self.side, self.seed)
+        cwd = {'asis': self.old, 'dataset': self.d, 'parent': os.path.dirname(self.d)}.get(self.kind, self.side)
+        os.chdir(cwd)
+        sp = (lambda x: os.path.relpath(str(x), cwd)) if self.rel else (lambda x: str(x))
+        from pathlib import Path
+        kw = dict(self.kw)
+        kw['dir_path'] = Path(sp(kw['dir_path']))
+        if kw.get('dat_path'):
+            kw['dat_path'] = [Path(sp(x)) for x in kw['dat_path']]
+        self.kwargs, self.params_path = kw, sp(os.path.join(self.d, 'params.py'))
+        return self
+
+    def listing(self):
+        return D.listing(self.side) if self.side else {}
+
+    def __exit__(self, *exc):
+        os.chdir(self.old)
+        if self.side:
+            shutil.rmtree(self.side, ignore_errors=True)
+        return False
+
+
 def _abstract_path(p, d):
-    p = str(p)
+    p = os.path.abspath(str(p))      # (a relative path is relative to the working directory of the load)
     return D4.DIR + p[len(d):] if (p == d or p.startswith(d + os.sep)) else p
 
 
@@ -493,6 +584,44 @@ def _traces_obs(np, m):
     return _ta(first)
 
 
+def _observe(np, ds, d, route, env):
+    from phylib.io.model import TemplateModel
+    before, before_cwd = D.listing(d), env.listing()
+    try:
+        if route == 'kwargs':
+            m = TemplateModel(**env.kwargs)
+        else:
+            from phylib.io.model import load_model
+            m = load_model(env.params_path)
+    except ValueError as e:
+        if 'increasing' in str(e):
+            return ('rejected',)
+        raise
+    obs = {
+        'samples': _ta(m.spike_samples), 'times': _ta(m.spike_times), 'amps': _ta(m.amplitudes),
+        'stemplates': _ta(m.spike_templates), 'sclusters': _ta(m.spike_clusters),
+        'cmap': _ta(m.channel_mapping), 'pos': _ta(m.channel_positions), 'shanks': _ta(m.channel_shanks),
+        'probes': _ta(m.channel_probes), 'tdata': _ta(np.array(m.sparse_templates.data)),
+        'tcols': _ta(m.sparse_templates.cols), 'wm': _ta(m.wm), 'wmi': _ta(m.wmi), 'similar': _ta(m.similar_templates),
+        'attrs': sorted((k, _ta(v)) for k, v in m.spike_attributes.items()),
+        'traces': _traces_obs(np, m),
+        'reordered': _ta(m.spike_times_reordered),
+        'ctor': {'dir': _abstract_path(m.dir_path, d), 'dats': [_abstract_path(x, d) for x in m.dat_path],
+                 'dtype': np.dtype(m.dtype).name, 'offset': int(m.offset), 'rate': D.tok(float(m.sample_rate)),
+                 'ncd': None if m.n_channels_dat is None else int(m.n_channels_dat)},
+    }
+    m.close()
+    del m
+    after, after_cwd = D.listing(d), env.listing()
+    # (files of the working directory are reported under 'cwd:<name>': nothing there may change or appear)
+    obs['changed'] = sorted(k for k in before if after.get(k) != before[k]) + \
+        sorted('cwd:' + k for k in before_cwd if after_cwd.get(k) != before_cwd[k])
+    obs['new'] = [(k, _ta(np.load(os.path.join(d, k)))) for k in sorted(set(after) - set(before))
+                  if k.endswith('.npy')] + [(k, None) for k in sorted(set(after) - set(before)) if not k.endswith('.npy')] + \
+        [('cwd:' + k, None) for k in sorted(set(after_cwd) - set(before_cwd))]
+    return ('loaded', obs)
+
+
 def run_case(case):
     import numpy as np
     from phylib.io.model import TemplateModel
@@ -505,37 +634,8 @@ def run_case(case):
             _write_params(ds, route, d)
         if ds.get('opts', {}).get('warm'):
             _warm_up(ds, d, kw, route)
-        before = D.listing(d)
-        try:
-            if route == 'kwargs':
-                m = TemplateModel(**kw)
-            else:
-                from phylib.io.model import load_model
-                m = load_model(os.path.join(d, 'params.py'))
-        except ValueError as e:
-            if 'increasing' in str(e):
-                return ('rejected',)
-            raise
-        obs = {
-            'samples': _ta(m.spike_samples), 'times': _ta(m.spike_times), 'amps': _ta(m.amplitudes),
-            'stemplates': _ta(m.spike_templates), 'sclusters': _ta(m.spike_clusters),
-            'cmap': _ta(m.channel_mapping), 'pos': _ta(m.channel_positions), 'shanks': _ta(m.channel_shanks),
-            'probes': _ta(m.channel_probes), 'tdata': _ta(np.array(m.sparse_templates.data)),
-            'tcols': _ta(m.sparse_templates.cols), 'wm': _ta(m.wm), 'wmi': _ta(m.wmi), 'similar': _ta(m.similar_templates),
-            'attrs': sorted((k, _ta(v)) for k, v in m.spike_attributes.items()),
-            'traces': _traces_obs(np, m),
-            'reordered': _ta(m.spike_times_reordered),
-            'ctor': {'dir': _abstract_path(m.dir_path, d), 'dats': [_abstract_path(x, d) for x in m.dat_path],
-                     'dtype': np.dtype(m.dtype).name, 'offset': int(m.offset), 'rate': D.tok(float(m.sample_rate)),
-                     'ncd': None if m.n_channels_dat is None else int(m.n_channels_dat)},
-        }
-        m.close()
-        del m
-        after = D.listing(d)
-        obs['changed'] = sorted(k for k in before if after.get(k) != before[k])
-        obs['new'] = [(k, _ta(np.load(os.path.join(d, k)))) for k in sorted(set(after) - set(before))
-                      if k.endswith('.npy')] + [(k, None) for k in sorted(set(after) - set(before)) if not k.endswith('.npy')]
-        return ('loaded', obs)
+        with _Environment(ds, d, kw) as env:
+            return _observe(np, ds, d, route, env)
     finally:
         shutil.rmtree(d, ignore_errors=True)
 
@@ -619,7 +719,7 @@ def dist(case, obs):
         return out + ['broken=%s' % o.get('broken')]
     for k in ('names', 'label', 'vec2d', 'write_clusters', 'id_dtype', 'time_dtype', 'cm_dtype', 'nan', 'nan_template',
               'attrs', 'nonmono', 'write_wmi', 'alf_samples', 'sparse', 'route', 'features', 'tfeatures', 'reorder',
-              'nan_partial', 'one_channel', 'both', 'pos_style', 'pos_dtype', 'wm_dense', 'wmi_kind'):
+              'nan_partial', 'one_channel', 'both', 'pos_style', 'pos_dtype', 'wm_dense', 'wmi_kind', 'cwd', 'pass'):
         out.append('%s=%s' % (k, o.get(k)))
     f = case['inp']['files']
     out.append('raw=%s' % bool(case['inp'].get('raw')))
@@ -658,6 +758,11 @@ def shrink(case):
         c = copy.deepcopy(ds)
         c['opts']['route'] = 'kwargs'
         yield {'kind': 'load', 'inp': c}
+    for k, v in (('cwd', 'asis'), ('pass', 'abs'), ('warm', False)):
+        if ds.get('opts', {}).get(k, v) != v:
+            c = copy.deepcopy(ds)
+            c['opts'][k] = v
+            yield {'kind': 'load', 'inp': c}
 
 
 def repro(case):
@@ -670,7 +775,10 @@ def repro(case):
             "route = ds.get('opts', {}).get('route', 'kwargs')\n"
             "if route != 'kwargs': c04._write_params(ds, route, d)\n"
             "before = D.listing(d)\n"
-            "m = TemplateModel(**kw) if route == 'kwargs' else load_model(os.path.join(d, 'params.py'))\n"
+            "env = c04._Environment(ds, d, kw).__enter__()   # working directory (opts['cwd']) and path spelling (opts['pass'])\n"
+            "print('cwd', os.getcwd(), sorted(os.listdir('.'))[:12])\n"
+            "m = TemplateModel(**env.kwargs) if route == 'kwargs' else load_model(env.params_path)\n"
             "print(m.spike_times, m.spike_clusters, m.channel_mapping, m.dat_path, m.dtype, m.offset, m.sample_rate)\n"
+            "print('traces', None if m.traces is None else m.traces[:])\n"
             "after = D.listing(d); print('changed', [k for k in before if after.get(k) != before[k]], 'new', sorted(set(after) - set(before)))\n"
             % (case['inp'],))
